@@ -17,7 +17,7 @@ Example ex_wf : wf s0 = true. Proof. vm_compute. reflexivity. Qed.
 Example ex_valid : valid s0 d0 = true /\ valid s0 d1 = true. Proof. split; vm_compute; reflexivity. Qed.
 Example ex_pop_ok : pop_ok s0 pop0. Proof. repeat constructor. Qed.
 Example ex_weights : forall w ws, weights_of w pop0 = Ok ws -> Forall (fun x => (0 <= x)%Z) ws.
-Proof. intros [|] ws H; vm_compute in H; inv H; repeat constructor; discriminate. Qed.
+Proof. intros [| |] ws H; vm_compute in H; inv H; repeat constructor; discriminate. Qed.
 (* the model runs on them: Uniform mutation, Swap, Uniform crossover, PMX, and a composed expression *)
 Example ex_mutate : exists d, mutate_uniform unit first_rng wall s0 d0 tt = Ok (d, tt) /\ d <> d0 /\ valid s0 d = true.
 Proof. eexists. split. vm_compute. reflexivity. split. discriminate. vm_compute. reflexivity. Qed.
